@@ -291,8 +291,22 @@ def check_inline_idiom(ctx: Ctx, bf: FuncInfo):
         return
     lst = good[1]
     sl = [n for n in walk_no_nested(bf.node) if isinstance(n, ast.Subscript) and norm(n.value) == lst and isinstance(n.slice, ast.Slice)]
-    ok = any(x.slice.upper is None and x.slice.lower is not None and norm(x.slice.lower).replace(" ", "") in ("-len(deff[2])",) for x in sl)
-    ctx.check(ok, "RW-INLINE", bf, "only the return bits are kept", f"{lst}[-len(returns):]", "the bound definition does not keep exactly the last len(returns) expressions", bf.node)
+    D = bf.params[1] if len(bf.params) > 1 else "deff"
+    verdicts = []
+    for x in sl:
+        lo = x.slice.lower
+        if x.slice.upper is not None or x.slice.step is not None or lo is None:
+            verdicts.append((False, norm(x)))
+            continue
+        st_ = q.enclosing_stmt(bf, x)
+        lo_v = q.value_at(bf.body, st_, lo) if st_ is not None else None
+        lo_t = norm(q.fold_tuple_index(lo_v if lo_v is not None else lo)).replace(" ", "")
+        verdicts.append((lo_t == f"-len({D}[2])", norm(x)))
+    if not sl:
+        ctx.undecided(bf.short, f"the bound definition is not built from a tail slice of `{lst}`")
+    else:
+        ok = any(v for v, _ in verdicts)
+        ctx.check(ok, "RW-INLINE", bf, "only the return bits are kept", f"{lst}[-len(returns):]", f"the bound definition keeps `{verdicts[0][1]}`, not exactly the last len(returns) expressions", bf.node)
 
 
 def check_subs_keywords(ctx: Ctx):
